@@ -312,8 +312,7 @@ def dsStep (st : St) : List String → Option (St × String)
   | ["d_rename", a, b] => some (
       match st.dict.updateKey a b with
       | none => (st, "panic")
-      | some (.error .missing) => (st, "err missing")
-      | some (.error .existing) => (st, "err existing")
+      | some (.error _) => (st, "err")
       | some (.ok d) => ({ st with dict := d }, "ok"))
   | ["d_get", k] => some (st, optNat (st.dict.get k))
   | ["d_has", k] => some (st, if st.dict.containsKey k then "ok 1" else "ok 0")
